@@ -5,8 +5,10 @@
 EXTENDS PersonName, TLC, Json
 CONSTANT NAlpha
 
-(* "", "A", "Ab c", a non-ASCII token (U+00C5 U+4E2D U+1F600), "O'Neil-X." *)
+(* "", "A", "Ab c", a non-ASCII token (U+00C5 U+4E2D U+1F600), ASCII punctuation incl. the       *)
+(* backslash  H\j/.,-'"@x , "O'Neil-X."                                                        *)
 Alphabet == << <<>>, <<65>>, <<65, 98, 32, 99>>, <<197, 20013, 128512>>,
+               <<72, 92, 106, 47, 46, 44, 45, 39, 34, 64, 120>>,
                <<79, 39, 78, 101, 105, 108, 45, 88, 46>> >>
 
 VARIABLE c
